@@ -2975,6 +2975,7 @@ static int32_t parseGeneralNames(psPool_t *pool, const unsigned char **buf,
         }
         activeName->id = (x509GeneralNameType_t) (*p & 0xF);
         p++; len--;
+        terminating_nils = 1; /* Per entry: the previous one may have had its own. */
         switch (activeName->id)
         {
         case GN_OTHER:
